@@ -108,20 +108,28 @@ Qed.
 (* [isort_by] (Base/SortPerm.v) inserts x after every element that is <= x: Go's insertionSort *)
 (* ByDisplay.Less: lexicographic comparison over the fields the Go body reads, in order
    (regenerated: Gen.Tables.common_ByDisplay_less_fields — [Display; Value] since the tie-break fix) *)
-Definition field_by_name (n : str) (r : raw) : str :=
-  if str_eqb n (B [68;105;115;112;108;97;121]) then display r                       (* Display *)
-  else if str_eqb n (B [86;97;108;117;101]) then value r                            (* Value *)
-  else if str_eqb n (B [68;101;115;99;114;105;112;116;105;111;110]) then description r   (* Description *)
-  else if str_eqb n (B [83;116;121;108;101]) then style r                           (* Style *)
-  else if str_eqb n (B [84;97;103]) then tag r                                      (* Tag *)
-  else [].
-Fixpoint lex_ltb (ks : list str) (a b : raw) : bool :=
-  match ks with
+Definition fn_Display : str := B [68;105;115;112;108;97;121].
+Definition fn_Value : str := B [86;97;108;117;101].
+Definition fn_Description : str := B [68;101;115;99;114;105;112;116;105;111;110].
+Definition fn_Style : str := B [83;116;121;108;101].
+Definition fn_Tag : str := B [84;97;103].
+(* the accessor is chosen once per field name (not per record) *)
+Definition field_by_name (n : str) : raw -> str :=
+  if str_eqb n fn_Display then display
+  else if str_eqb n fn_Value then value
+  else if str_eqb n fn_Description then description
+  else if str_eqb n fn_Style then style
+  else if str_eqb n fn_Tag then tag
+  else fun _ => [].
+Fixpoint lex_ltbf (fs : list (raw -> str)) (a b : raw) : bool :=
+  match fs with
   | [] => false
-  | k :: ks' => if str_eqb (field_by_name k a) (field_by_name k b) then lex_ltb ks' a b
-                else str_ltb (field_by_name k a) (field_by_name k b)
+  | f :: fs' => if str_eqb (f a) (f b) then lex_ltbf fs' a b else str_ltb (f a) (f b)
   end.
-Definition display_ltb (a b : raw) : bool := lex_ltb common_ByDisplay_less_fields a b.
+Definition lex_ltb (ks : list str) : raw -> raw -> bool := lex_ltbf (map field_by_name ks).
+(* the field accessors are resolved once, not per comparison *)
+Definition display_key_fns : list (raw -> str) := map field_by_name common_ByDisplay_less_fields.
+Definition display_ltb : raw -> raw -> bool := lex_ltbf display_key_fns.
 Definition sort_by_display (vs : list raw) : list raw := isort_by display_ltb vs.
 
 (* ---------- Messages.Integrate (message.go:70-126) ---------- *)
